@@ -163,6 +163,35 @@ def describe_native(x, depth=0):
 # native evaluation of a contract around the real function
 
 
+def separated(root):
+    """Native counterpart of calls.separation_ok: no mutable container below root is reachable
+    along two different access paths."""
+    seen = set()
+    stack = [root]
+    while stack:
+        v = stack.pop()
+        if v is None or isinstance(v, (bool, int, float, str, bytes, enum.Enum, type, frozenset)):
+            continue
+        if isinstance(v, tuple):
+            stack.extend(v)
+            continue
+        if dataclasses.is_dataclass(v) and type(v).__dataclass_params__.frozen:
+            continue
+        if isinstance(v, (list, dict, set)) or (np is not None and isinstance(v, np.ndarray)) \
+                or hasattr(v, '__dict__'):
+            if id(v) in seen:
+                return False
+            seen.add(id(v))
+            if isinstance(v, list):
+                stack.extend(v)
+            elif isinstance(v, dict):
+                stack.extend(v.values())
+            elif hasattr(v, '__dict__') and not isinstance(v, (set,)) and \
+                    not (np is not None and isinstance(v, np.ndarray)):
+                stack.extend(vars(v).values())
+    return True
+
+
 def _pick(cfn, ns, order):
     names = list(inspect.signature(cfn).parameters)
     if all(p in ns for p in names):
@@ -240,6 +269,10 @@ def native_check(c, registry, args):
         if cc is not None and cc.inv is not None and c.check_inv and 'self' in args:
             if not cc.inv(args['self']):
                 failures.append((f'{short}/inv', 'class invariant broken'))
+        if cc is not None and cc.shape is not None and 'self' in args and \
+                not separated(args['self']):
+            failures.append((f'{short}/separation',
+                             'two parts of the object share one mutable container'))
     else:
         e = outcome
         info['outcome'] = f'raise {type(e).__name__}: {e}'
